@@ -123,7 +123,7 @@ def run_tie2(prop, P, tier, rng, replay=None, facts=None):
                     nfail += 1
                 if spec['nontrivial'](ops, io):
                     seen_nontrivial.add(json.dumps(ops))
-        cov['streams'][stream] = scov
+        cov['streams'][spec.get('label', stream)] = scov
         for cid, ops in cases[:2] + cases[-1:]:
             cov['samples'].append(dict(stream=stream, case=ops, impl=impl.get(cid) if 'impl' in dir() else None))
     cov['distinct_nontrivial'] = len(seen_nontrivial)
@@ -673,6 +673,19 @@ def all_slices(maxlen):
         out += [list(t) for t in itertools.product(range(3), repeat=n)]
     return out
 
+def effects_cases():
+    out = []
+    for kind in range(6):
+        for which in range(8):
+            for mode in (0, 1): out.append([9, kind, which, mode])
+    for x in range(3):
+        for y in range(3): out.append([8, x, y])
+    out += [[9, 6, 0, 0], [9, 0, 8, 0], [9, 0, 0, 2], [9, 1], [8, 3, 0], [8, 1]]
+    return out
+
+def gen_effects(tier, rng):
+    return [('E%d' % i, [op]) for i, op in enumerate(effects_cases())]
+
 def gen_cmp(tier, rng):
     cases = []; n = 0
     def add(op):
@@ -701,6 +714,7 @@ def gen_cmp(tier, rng):
                 if kind == 5 and rng.random() < 0.5:
                     ra = rng.choice([len(sa), len(sa) + 1, 0, 5]); rb = rng.choice([len(sb), len(sb) + 2, 1, 5])
                 add([cls, kind, same, ha, ra, len(sa)] + sa + [hb, rb, len(sb)] + sb)
+    for op in effects_cases(): add(op)
     # the F2 witness and malformed cases
     add([0, 5, 0, 1, 5, 2, 1, 2, 1, 2, 2, 1, 2]); add([0, 5, 0, 1, 2, 2, 1, 2, 1, 5, 2, 1, 2])
     add([0, 0, 0, 7, 1]); add([5, 0, 0, 1, 1]); add([0, 9, 0, 1, 1]); add([0, 4, 0, 1, 1, 1])
@@ -709,6 +723,20 @@ def gen_cmp(tier, rng):
 def oracle_cmp(ops, io, ctx):
     """C14 on the implementation's own answers, for the lawful classes (0 and 1): consistency of the operators"""
     op = ops[0]; o = io[0]
+    if op[0] == 9:
+        if len(o) != 4: return None
+        kinds = ['Arc', 'OffsetArc', 'ArcBorrow', 'ArcUnion', 'ThinArc', 'Arc<HeaderSlice>']
+        whichs = ['==', '!=', 'partial_cmp', '<', 'cmp', 'hash', 'Debug', 'Display']
+        if len(op) != 4 or op[1] > 5 or op[2] > 7: return None
+        what = '%s through %s with a payload impl that %s' % (whichs[op[2]], kinds[op[1]], 'panics' if op[3] else 'answers')
+        if o[1] != 1: return '%s: a reference count changed during or after the operation' % what
+        if o[2] != 0: return '%s: %d accesses to dead values / bogus releases' % (what, o[2])
+        if o[3] != (2 if op[1] <= 3 else 6): return '%s: %d values destroyed once everything is released (expected %d)' % (what, o[3], 2 if op[1] <= 3 else 6)
+        return None
+    if op[0] == 8:
+        if len(o) == 4 and (o[0] != 0 or o[1] != 1): return 'ArcUnion<T,T>: the same allocation held as First and as Second compares equal (== %d, != %d)' % (o[0], o[1])
+        if len(o) == 4 and (o[2] != 1 or o[3] != 0): return 'ArcUnion<T,T>: First(a)==First(a) is %d, First(a)==Second(b) is %d' % (o[2], o[3])
+        return None
     if op[0] in (0, 1) and op[1] in (1, 2, 3) and len(o) >= 2 and o[0] <= 1:
         # handles of plain values: the answer must be the values' own (same allocation counts as equal for ArcBorrow/ArcUnion)
         same = op[2] != 0
@@ -728,6 +756,32 @@ def oracle_cmp(ops, io, ctx):
         return None
     if len(o) < 7 or op[0] not in (0, 1) or op[1] not in (0, 4, 5, 6): return None
     eq, ne, lt, le, gt, ge, pc = o[:7]
+    if op[1] in (4, 5, 6):
+        # reference ordering: the header, then the slice (element-wise, then by length), then - for the fat Arc with a
+        # recorded length - the recorded length; class 1 is a float-like payload in which the value 2 is NaN
+        try:
+            ha, ra, la = op[3:6]; sa = op[6:6 + la]; rest = op[6 + la:]
+            hb, rb, lb = rest[0:3]; sb = rest[3:3 + lb]
+            if op[2] != 0: hb, rb, sb = ha, ra, sa
+            def pv(x, y):
+                if op[0] == 1 and (x == 2 or y == 2): return 0
+                return 1 if x < y else (3 if x > y else 2)
+            def lex():
+                r = pv(ha, hb)
+                if r != 2: return r
+                for x, y in zip(sa, sb):
+                    r = pv(x, y)
+                    if r != 2: return r
+                if len(sa) != len(sb): return 1 if len(sa) < len(sb) else 3
+                if op[1] == 5 and ra != rb: return 1 if ra < rb else 3
+                return 2
+            want = lex()
+            if pc != want:
+                names = ['None', 'Less', 'Equal', 'Greater']
+                return 'partial_cmp of header-slice values (header %d slice %s) vs (header %d slice %s) through %s is %s; header-then-slice ordering gives %s' % (
+                    ha, sa, hb, sb, {4: 'ThinArc', 5: 'the fat Arc', 6: 'HeaderSlice'}[op[1]], names[pc] if pc < 4 else pc, names[want])
+        except (IndexError, ValueError):
+            pass
     same = op[2] != 0
     if ne != 1 - eq: return '!= is not the negation of == (%d, %d)' % (eq, ne)
     nan_involved = op[0] == 1 and 2 in op[3:]
@@ -742,7 +796,7 @@ def oracle_cmp(ops, io, ctx):
     return None
 
 CMP_STREAM = dict(stream='cmp', gen=gen_cmp, oracle=oracle_cmp,
-                  nontrivial=lambda ops, io: ops[0][1] >= 3 or ops[0][0] >= 1 or ops[0][2] == 1,
+                  nontrivial=lambda ops, io: len(ops[0]) > 2 and (ops[0][1] >= 3 or ops[0][0] >= 1 or ops[0][2] == 1),
                   rule='exhaustive: Arc/OffsetArc/ArcBorrow/ArcUnion over all pairs of a 3-letter alphabet x same/distinct allocation x 3 payload classes (total order, float with NaN, deliberately unlawful); header-slice values: headers x slices up to length 3 over 3 letters (120 values) in ThinArc, fat Arc with recorded length equal and unequal, and derived HeaderSlice: all 14400 pairs in thorough, 700 sampled pairs in quick, x 3 classes x 3 kinds; observation: == != < <= > >= partial_cmp cmp, hash/Debug/Display agreement with the plain value, HashMap/BTreeMap lookups through Borrow; non-trivial = not (Arc of a totally ordered payload in distinct allocations); distinct = distinct tuples',
                   cfgs=dict(quick=[('cfg_default', 'debug')], thorough=[('cfg_default', 'debug'), ('cfg_default', 'release'), ('cfg_all', 'release')]))
 
@@ -1211,7 +1265,9 @@ def gen_dpanic(tier, rng):
     for j in range(0, 4): cases.append(('D%d' % n, [[40 + j, 0, 0]])); n += 1
     # copy-on-write / unwrap_or_clone of a shared value whose type has no drop glue, is not Copy, and whose Clone is not a bitwise copy
     for j in range(0, 4): cases.append(('D%d' % n, [[44 + j, 0, 0]])); n += 1
-    for op in ([29, 1, 0], [20, 40, 0], [45, 1, 1], [40, 1, 0]): cases.append(('D%d' % n, [op])); n += 1
+    # zero-sized headers / payloads with drop glue through the constructors
+    for j in range(0, 6): cases.append(('D%d' % n, [[48 + j, 0, 0]])); n += 1
+    for op in ([29, 1, 0], [20, 40, 0], [45, 1, 1], [40, 1, 0], [54, 0, 0], [48, 1, 0]): cases.append(('D%d' % n, [op])); n += 1
     return cases
 
 def oracle_dpanic(ops, io, ctx):
@@ -1220,6 +1276,15 @@ def oracle_dpanic(ops, io, ctx):
     parts = ct_split(o)
     if len(parts) != 3: return 'malformed observation'
     d = parts[1]
+    if 48 <= op[0] < 54:
+        what = ['UniqueArc::from_header_and_uninit_slice (dropped uninitialised)', 'from_header_and_uninit_slice + assume_init_slice_with_header, shared', 'Arc::from_header_and_iter',
+                'Arc::from_header_and_vec', 'Arc::from(Box<T>)', 'Arc::new'][op[0] - 48]
+        if len(parts[2]) < 4: return 'malformed observation'
+        during, total, elems, bad = parts[2][:4]
+        if bad: return '%s with a zero-sized value: %d accesses to dead values or releases of memory that was never allocated' % (what, bad)
+        if during != 0: return '%s with a zero-sized header/payload that has a destructor: it is destroyed %d times during construction, while the handle is alive' % (what, during)
+        if total != 1: return '%s with a zero-sized header/payload that has a destructor: destroyed %d times in all (exactly once expected)' % (what, total)
+        return None
     if 44 <= op[0] < 48:
         what = ['Arc::make_mut', 'OffsetArc::make_mut', 'Arc::make_unique', 'Arc::unwrap_or_clone'][op[0] - 44]
         if len(parts[2]) < 4: return 'malformed observation'
@@ -1240,12 +1305,38 @@ def oracle_dpanic(ops, io, ctx):
     if rel != 1: return 'kind %d, %d elements: the destructor of value %d panics while the last handle is released: the block is returned %d times (it leaks)' % (op[0] - 20, op[1], op[2], rel)
     return None
 
-DPANIC_STREAM = dict(stream='ctor', gen=gen_dpanic, oracle=oracle_dpanic, prep=mech_prep,
+DPANIC_STREAM = dict(stream='ctor', label='ctor-scenarios', gen=gen_dpanic, oracle=oracle_dpanic, prep=mech_prep,
                      nontrivial=lambda ops, io: len(io[0]) > 3 and io[0][0] == 1,
                      rule='destructor-panic cases: the last handle (Arc<T>, Arc<[T]> from a Vec, ThinArc, Arc<HeaderSlice>, OffsetArc, ArcUnion, Arc<[T]> built through UniqueArc<[MaybeUninit<T>]> and assume_init_slice, a never-assumed-init UniqueArc<HeaderSlice<H,[MaybeUninit<T>]>>, a clone pair) of a block with 0..3 (thorough 0..8) elements is released and the destructor of value k panics, for every k; observation: panic propagated, values destroyed in order, how often the block was returned with its own layout; non-trivial = the panic fired',
                      cfgs=dict(quick=[('cfg_default', 'debug'), ('cfg_default', 'release')], thorough=[('cfg_default', 'debug'), ('cfg_default', 'release'), ('cfg_nostd', 'release')]))
 PROPS['C01']['streams'] = PROPS['C01']['streams'] + [DPANIC_STREAM]
 PROPS['C15']['streams'] = PROPS['C15']['streams'] + [DPANIC_STREAM]
+PROPS['C06']['streams'] = PROPS['C06']['streams'] + [DPANIC_STREAM]
+EFFECTS_STREAM = dict(stream='cmp', label='cmp-effects', gen=gen_effects, oracle=oracle_cmp, nontrivial=lambda ops, io: len(ops[0]) == 4 and ops[0][0] == 9 and ops[0][3] == 1,
+                      rule='comparison / hash / format through every handle kind (Arc, OffsetArc, ArcBorrow, ArcUnion, ThinArc, fat header-slice Arc) x {==, !=, partial_cmp, <, cmp, hash, Debug, Display} x payload impl answers / panics: panic propagated, every count read before, during (from inside the operation where possible) and after is unchanged, no dead access, every value destroyed once afterwards; non-trivial = the impl panicked',
+                      cfgs=dict(quick=[('cfg_default', 'debug'), ('cfg_default', 'release')], thorough=[('cfg_default', 'debug'), ('cfg_default', 'release'), ('cfg_all', 'release')]))
+def gen_union_cmp(tier, rng):
+    cases = []; n = 0
+    for cls in range(3):
+        for xv in range(2):
+            for x in range(3):
+                cases.append(('U%d' % n, [[cls, 3, 1, xv, x, xv, x]])); n += 1
+                for yv in range(2):
+                    for y in range(3): cases.append(('U%d' % n, [[cls, 3, 0, xv, x, yv, y]])); n += 1
+    for x in range(3):
+        for y in range(3): cases.append(('U%d' % n, [[8, x, y]])); n += 1
+    return cases
+UNION_CMP_STREAM = dict(stream='cmp', label='cmp-union', gen=gen_union_cmp, oracle=oracle_cmp, nontrivial=lambda ops, io: True,
+                        rule='ArcUnion == / != / Debug over all pairs of (variant, value) from a 3-letter alphabet x 3 payload classes, same and distinct allocations, and for ArcUnion<T,T> the same allocation held as First and as Second; distinct = distinct cases',
+                        cfgs=dict(quick=[('cfg_default', 'debug')], thorough=[('cfg_default', 'debug'), ('cfg_default', 'release')]))
+PROPS['C12']['streams'] = PROPS['C12']['streams'] + [UNION_CMP_STREAM]
+PROPS['C04']['streams'] = PROPS['C04']['streams'] + [EFFECTS_STREAM]
+PROPS['C07']['streams'] = PROPS['C07']['streams'] + [EFFECTS_STREAM]
+def c15_side(facts):
+    PT = facts.get('pointers') or {}
+    return [('uninit_constructors_and_assume_init_are_the_modelled_ones', bool((PT.get('forms') or {}).get('uninit')), 'differing: %s' % PT.get('diffs'))]
+_c15_old_side = PROPS['C15']['side_obligations']
+PROPS['C15']['side_obligations'] = lambda facts: _c15_old_side(facts) + c15_side(facts)
 PROPS['C09']['streams'] = PROPS['C09']['streams'] + [DPANIC_STREAM]
 PROPS['C08']['streams'] = PROPS['C08']['streams'] + [DPANIC_STREAM]
 PROPS['C01']['assumptions'] = PROPS['C01']['assumptions'] + ['a panicking payload destructor: Rust drop glue destroys the remaining fields and elements while unwinding and Box frees its memory on the unwind path (Ctor.run_dpanic; validated by the destructor-panic cases)']
